@@ -474,6 +474,54 @@ mod verif_nat {
         cmp_1_1, cmp_far_1_1: 1, 1; cmp_1_2, cmp_far_1_2: 1, 2; cmp_1_3, cmp_far_1_3: 1, 3;
     }
 
+    // ---- coordinator addendum: heap x heap ordering with CONCRETE exponents (symbolic digits).  The generic
+    // check_cmp::<2, 2> (symbolic exponents) does not finish; fixing the exponents removes the shift-amount case split.
+    fn any_nat_e<const L: usize>(e: u64) -> Natural {
+        let n = if L == 1 {
+            Natural { ptr: DANGLING, len: kani::any(), shl: e }
+        } else {
+            let d: [u64; L] = kani::any();
+            let b: Box<[u64]> = Box::new(d);
+            let ptr = NonNull::new(Box::into_raw(b).cast::<u64>()).unwrap();
+            Natural { ptr, len: L as u64, shl: e }
+        };
+        let ok = wf(&n);
+        kani::cover!(ok);
+        kani::assume(ok);
+        n
+    }
+    fn check_cmp_conc<const LA: usize, const LB: usize>(ea: u64, eb: u64) {
+        let a = any_nat_e::<LA>(ea);
+        let b = any_nat_e::<LB>(eb);
+        let (aa, ab) = (abs(&a), abs(&b));
+        let base = if aa.e < ab.e { aa.e } else { ab.e };
+        let (va, vb) = (val_rel(&aa, base), val_rel(&ab, base));
+        let ok = va.is_some() && vb.is_some() && !(is_zero(&aa) && is_zero(&ab));
+        kani::cover!(ok);
+        kani::assume(ok);
+        let want = va.unwrap().cmp(&vb.unwrap());
+        kani::cover!(want == Ordering::Less);
+        kani::cover!(want == Ordering::Greater);
+        assert!(a.partial_cmp(&b) == Some(want));
+        assert!(b.partial_cmp(&a) == Some(want.reverse()));
+        assert!((want == Ordering::Equal) == (a == b));
+    }
+    macro_rules! cmp_conc_h {
+        ($($name:ident: $la:literal, $lb:literal, $ea:expr, $eb:expr;)*) => {$(
+            #[kani::proof]
+            #[kani::unwind(34)]
+            fn $name() { check_cmp_conc::<$la, $lb>($ea, $eb) }
+        )*};
+    }
+    cmp_conc_h! {
+        cmp_conc_2_2_e0_e0: 2, 2, 0, 0;
+        cmp_conc_2_2_e1_e0: 2, 2, 1, 0;
+        cmp_conc_2_3_e1_e0: 2, 3, 1, 0;
+        cmp_conc_3_2_e0_e3: 3, 2, 0, 3;
+        cmp_conc_3_3_e0_e0: 3, 3, 0, 0;
+        cmp_conc_2_3_e64_e0: 2, 3, 64, 0;
+    }
+
     // heap x heap shapes: only the far-apart harness is decidable in reasonable time (check_cmp::<2, 2> ran
     // > 16 min CPU without finishing; see REPORT.md)
     #[kani::proof]
@@ -723,6 +771,39 @@ mod verif_nat {
         add_inline_e5_e69: 5, 69, 3;          // gap 64: digit aligned, no overlap
         add_inline_e5_e70: 5, 70, 3;          // gap 65: no overlap, start_bit 1
         add_inline_emax_gap: u64::MAX - 5, u64::MAX - 2, 3;
+    }
+
+    // ---- coordinator addendum: addition with heap operands, CONCRETE exponents, symbolic digits; oracle = 256-bit sum of the
+    // values relative to the smaller exponent (independent of the code under test)
+    fn check_add_conc<const LA: usize, const LB: usize>(ea: u64, eb: u64) {
+        let a = any_nat_e::<LA>(ea);
+        let b = any_nat_e::<LB>(eb);
+        let (aa, ab) = (abs(&a), abs(&b));
+        let base = if ea < eb { ea } else { eb };
+        let (va, vb) = (val_rel(&aa, base), val_rel(&ab, base));
+        let sum = match (va, vb) { (Some(x), Some(y)) => w_add(x, y), _ => None };
+        kani::cover!(sum.is_some());
+        kani::assume(sum.is_some());
+        let r = a + b;
+        assert!(wf(&r));
+        let ar = abs(&r);
+        assert!(!ar.nan);
+        assert!(ar.e >= base);
+        assert!(val_rel(&ar, base) == sum);
+    }
+    macro_rules! add_conc_h {
+        ($($name:ident: $la:literal, $lb:literal, $ea:expr, $eb:expr, $unwind:literal;)*) => {$(
+            #[kani::proof]
+            #[kani::unwind($unwind)]
+            #[kani::stub(std::vec::Vec::with_capacity, with_capacity_split)]
+            fn $name() { check_add_conc::<$la, $lb>($ea, $eb) }
+        )*};
+    }
+    add_conc_h! {
+        add_conc_3_1_e0_e64: 3, 1, 0, 64, 6;     // in-place path: the sum fits the buffer of the lower-exponent operand
+        add_conc_3_1_e0_e70: 3, 1, 0, 70, 6;
+        add_conc_3_2_e0_e64: 3, 2, 0, 64, 6;
+        add_conc_2_2_e0_e0: 2, 2, 0, 0, 6;
     }
 
     /// NaN + x = x + NaN = NaN for inline operands: every wf inline NaN (mantissa 0 = `Natural::NAN`,
